@@ -102,8 +102,8 @@ End Ext.
 (* ---- states ------------------------------------------------------------------------------------------------------ *)
 Lemma state_ext a b :
   stk a = stk b -> ctxv a = ctxv b -> top_in a = top_in b -> inner a = inner b -> fstack a = fstack b ->
-  sdepth a = sdepth b -> reg a = reg b -> vars a = vars b -> locs a = locs b -> this a = this b -> out a = out b ->
-  printed a = printed b -> a = b.
+  sdepth a = sdepth b -> reg a = reg b -> vars a = vars b -> heap a = heap b -> cur a = cur b -> this a = this b ->
+  out a = out b -> printed a = printed b -> a = b.
 Proof. destruct a, b; simpl; intros; subst; reflexivity. Qed.
 
 Lemma set_stk_same s : set_stk s (stk s) = s.
@@ -112,6 +112,10 @@ Lemma set_stk_set s a : set_stk (set_stk s a) (stk s) = s.
 Proof. destruct s; reflexivity. Qed.
 
 Arguments m_lambda_pops : simpl never.
+
+Ltac edef :=
+  rewrite ?ctxv_enter_def, ?fstack_enter_def, ?sdepth_enter_def, ?inner_enter_def, ?stk_enter_def, ?this_enter_def in *.
+Ltac st_eq := apply state_ext; simpl; edef; simpl; auto.
 
 (* ---- early exits: what the machine has already popped when it jumps ------------------------------------------------- *)
 Definition lift (r : fres) : fres :=
@@ -195,14 +199,14 @@ Section Sim.
     m_lambda_body mrec self c popped s = r_lambda rrec self c popped s.
   Proof.
     intro Hc.
-    unfold m_lambda_body, r_lambda, with_stack, with_locals, with_this, with_function, with_context, with_scope, with_registered, bracket.
+    unfold m_lambda_body, r_lambda, with_stack, with_env, with_this, with_function, with_context, with_scope, with_registered, bracket.
     match goal with |- xbind (mrec true _ ?A) _ = _ => set (S0 := A) end.
     match goal with |- context [rrec (c_body c) ?B] => replace B with S0 by (apply state_ext; reflexivity) end.
     destruct (Hrec true LNone true _ S0 Hc) as [E SG]. rewrite E. clear E.
     pose proof (Hfr (c_body c) S0) as K. destruct (rrec (c_body c) S0) as [[g s1]| |]; simpl; try reflexivity.
     assert (P : forall s2, frames S0 s2 ->
               m_lambda_pops s2 = XOk (set_fstack (set_sdepth (set_inner (set_ctxv s2 (ctxv s)) (inner s)) (sdepth s)) (fstack s))).
-    { intros s2 (F1 & F2 & F3 & F4). subst S0. simpl in F1, F2, F3, F4.
+    { intros s2 (F1 & F2 & F3 & F4). subst S0. simpl in F1, F2, F3, F4. edef. simpl in F1, F2, F3, F4.
       destruct (inner s2) as [|[l c2] r2] eqn:EI; [contradiction|]. destruct F4 as [_ F4]. subst r2.
       unfold m_lambda_pops, m_ctx_pop. rewrite F1. simpl.
       unfold m_inputs_pop. simpl. rewrite EI. simpl.
@@ -211,22 +215,21 @@ Section Sim.
     destruct g; simpl in SG; try discriminate; simpl.
     - destruct (pop1 s1) as [s2 r] eqn:E. apply pop1_frames in E. simpl.
       rewrite (P s2 (frames_trans _ _ _ K E)). simpl. unfold leave_frame.
-      repeat f_equal; try (apply state_ext; reflexivity).
+      f_equal. f_equal. st_eq.
     - simpl. rewrite (P s1 K). simpl. unfold leave_frame.
-      repeat f_equal; try (apply state_ext; reflexivity).
+      f_equal. f_equal. st_eq.
   Qed.
 
   (* ---- named functions ------------------------------------------------------------------------------------------ *)
   Lemma m_params_eq ps : forall acc loc s,
-    m_params ps acc loc s =
-    xdo (s', l, lc) <- r_params ps s;
-    XOk (s', acc ++ l, fold_left (fun a kv => assign (fst kv) (snd kv) a) lc loc).
+    m_params ps acc loc s = xdo (s', l, lc) <- r_params ps s; XOk (s', acc ++ l, loc ++ lc).
   Proof.
     induction ps as [|[n|x|] r IH]; intros acc loc s; simpl.
-    - rewrite app_nil_r. reflexivity.
+    - rewrite !app_nil_r. reflexivity.
     - destruct (popn n s) as [s1 popped]. rewrite IH. destruct (r_params r s1) as [[[s2 more] lc]| |]; simpl; try reflexivity.
       rewrite app_assoc. reflexivity.
-    - destruct (pop1 s) as [s1 v]. rewrite IH. destruct (r_params r s1) as [[[s2 more] lc]| |]; reflexivity.
+    - destruct (pop1 s) as [s1 v]. rewrite IH. destruct (r_params r s1) as [[[s2 more] lc]| |]; simpl; try reflexivity.
+      rewrite <- app_assoc. reflexivity.
     - destruct (pop_star s) as [[s1 popped]|]; simpl; try reflexivity.
       rewrite IH. destruct (r_params r s1) as [[[s2 more] lc]| |]; simpl; try reflexivity.
       rewrite app_assoc. reflexivity.
@@ -235,20 +238,30 @@ Section Sim.
   Lemma named_sim c s :
     core_ok_list true LNone false (c_body c) = true -> m_named_body mrec c s = r_named rrec c s.
   Proof.
-    intro Hc. unfold m_named_body, r_named, bind_all. rewrite m_params_eq.
+    intro Hc. unfold m_named_body, r_named. rewrite m_params_eq.
     destruct (r_params (c_params c) s) as [[[s1 ps] loc]| |]; simpl; try reflexivity.
-    unfold with_stack, with_locals, with_this, with_context, with_scope, with_registered, bracket.
+    unfold with_stack, with_env, with_this, with_context, with_scope, with_registered, bracket.
+    set (S1 := bind_params loc (enter_def (decl_of c) (c_env c) (set_stk s1 (rev ps)))).
+    assert (G : frames s1 S1).
+    { unfold S1. eapply frames_trans; [|apply frames_bind_params]. eapply frames_trans; [|apply frames_enter_def]. apply frames_set_stk. }
+    destruct G as (G1 & G2 & G3 & G4).
+    cbn [xbind].
+    match goal with |- xbind (of_name (lookup_var _ ?A)) _ = _ => set (S2 := A) end.
+    match goal with |- _ = xbind (xbind (xbind (xbind (xbind (xbind (of_name (lookup_var _ ?B)) _) _) _) _) _) _ =>
+      replace B with S2 by (apply state_ext; reflexivity) end.
+    destruct (lookup_var (c_name c) S2) as [f|]; simpl; try reflexivity.
     match goal with |- xbind (mrec true _ ?A) _ = _ => set (S0 := A) end.
     match goal with |- context [rrec (c_body c) ?B] => replace B with S0 by (apply state_ext; reflexivity) end.
     destruct (rec_plain true _ S0 Hc) as [E ON]. rewrite E. clear E.
     pose proof (Hfr (c_body c) S0) as K. destruct (rrec (c_body c) S0) as [[g s2]| |]; simpl; try reflexivity.
     destruct g; simpl in ON; try contradiction.
-    destruct K as (F1 & F2 & F3 & F4). subst S0. simpl in F1, F2, F3, F4.
+    destruct K as (F1 & F2 & F3 & F4). subst S0 S2. simpl in F1, F2, F3, F4.
     destruct (inner s2) as [|[l c2] r2] eqn:EI; [contradiction|]. destruct F4 as [_ F4]. subst r2.
     unfold m_ctx_pop. rewrite F1. simpl.
     unfold m_inputs_pop. simpl. rewrite EI. simpl.
     unfold m_stacks_pop. simpl. rewrite F3. simpl. unfold leave_frame.
-    repeat f_equal; try (apply state_ext; simpl; auto).
+    f_equal. f_equal. apply state_ext; simpl; auto.
+    unfold S1. rewrite this_bind_params, this_enter_def. reflexivity.
   Qed.
 
   (* ---- the call protocols ------------------------------------------------------------------------------------------- *)
@@ -286,8 +299,7 @@ Section Sim.
   Proof.
     unfold token_core, m_token, r_token. destruct (tk t); intro H; try discriminate; try reflexivity.
     all: try (destruct (string_value t); reflexivity).
-    - destruct (tv t) as [|k [|? ?]]; try reflexivity. apply elem_sim.
-    - apply andb_prop in H as [H1 H2]. rewrite H1, H2. reflexivity.
+    destruct (tv t) as [|k [|? ?]]; try reflexivity. apply elem_sim.
   Qed.
 
   (* ---- early exits -------------------------------------------------------------------------------------------------------- *)
@@ -387,7 +399,7 @@ Section Sim.
   Proof.
     intro Hc. induction items as [|x r IH]; intro s; [simpl; auto|].
     cbn [m_for r_for].
-    set (s1 := match var with Some v => set_vars s (assign v x (vars s)) | None => s end).
+    set (s1 := match var with Some v => assign_var v x s | None => s end).
     destruct (Hrec indef LFor false body (m_ctx_push x s1) Hc) as [E SG].
     pose proof (ctx_iteration x (rrec body) s1 (Hfr _ _)) as CI.
     unfold with_context, bracket in *. fold (m_ctx_push x s1) in *.
@@ -406,14 +418,17 @@ Section Sim.
     induction its as [|x r IH]; intros temp s Hc.
     - simpl. rewrite app_nil_r. reflexivity.
     - cbn [forallb] in Hc. apply andb_prop in Hc as [Hx Hr].
-      cbn [m_items r_items]. unfold with_stack, with_locals, bracket. rewrite set_stk_same.
-      destruct (rec_plain true x (set_locs s []) Hx) as [E ON]. rewrite E. clear E.
-      destruct (rrec x (set_locs s [])) as [[g s1]| |]; simpl; try reflexivity.
+      cbn [m_items r_items]. unfold with_stack, with_env, bracket. rewrite set_stk_same.
+      set (S0 := enter_def (assigned_list x) (cur s) s).
+      destruct (rec_plain true x S0 Hx) as [E ON]. rewrite E. clear E.
+      destruct (rrec x S0) as [[g s1]| |]; simpl; try reflexivity.
       destruct g; simpl in ON; try contradiction. simpl.
+      assert (EQ : set_stk (set_cur s1 (cur s)) (stk s) = set_cur (set_stk s1 (stk s)) (cur s)) by (apply state_ext; reflexivity).
+      rewrite EQ.
       destruct (stk s1) as [|v rest]; simpl.
-      + rewrite (IH temp _ Hr). unfold set_stk, set_locs; simpl.
+      + rewrite (IH temp _ Hr).
         match goal with |- context [r_items rrec r ?S1] => destruct (r_items rrec r S1) as [[vs s2]| |] end; reflexivity.
-      + rewrite (IH (temp ++ [v]) _ Hr). unfold set_stk, set_locs; simpl.
+      + rewrite (IH (temp ++ [v]) _ Hr).
         match goal with |- context [r_items rrec r ?S1] => destruct (r_items rrec r S1) as [[vs s2]| |] end; simpl; try reflexivity.
         rewrite <- app_assoc. reflexivity.
   Qed.
@@ -432,7 +447,7 @@ Section Sim.
     - apply andb_prop in Hc as [Hn Hb]. destruct names as [|n ?].
       + destruct (pop1 s) as [s1 v]. destruct (iter_range cf v) as [items|]; simpl; auto.
         destruct (for_sim indef None body items Hb s1) as [E ON]. rewrite E. plain; exact ON.
-      + apply andb_prop in Hn as [Hn1 Hn2]. rewrite Hn1, Hn2. simpl.
+      + rewrite Hn. simpl.
         destruct (pop1 s) as [s1 v]. destruct (iter_range cf v) as [items|]; simpl; auto.
         destruct (for_sim indef (Some (keep re_keep_for n)) body items Hb s1) as [E ON]. rewrite E. plain; exact ON.
     - apply andb_prop in Hc as [Hc1 Hc2]. destruct (rec_plain indef cond s Hc1) as [E ON]. rewrite E.
@@ -440,8 +455,8 @@ Section Sim.
       destruct g; simpl in ON; try contradiction.
       destruct (pop1 s1) as [s2 v]. destruct (Hwl indef v cond body s2 Hc1 Hc2) as [E2 ON2]. rewrite E2. plain; exact ON2.
     - rewrite Hc. destruct (lookup_var _ s) as [[z|t0|l|c]|]; simpl; auto. rewrite call_sim. plain; apply only_norm_norm.
-    - apply andb_prop in Hc as [Hc Hb]. apply andb_prop in Hc as [Hc Hp]. apply andb_prop in Hc as [Hi Hn].
-      rewrite Hi, Hn. simpl. destruct (params_of params); simpl; auto.
+    - apply andb_prop in Hc as [Hc Hb]. apply andb_prop in Hc as [Hn Hp].
+      rewrite Hn. simpl. destruct (params_of params); simpl; auto.
     - simpl. auto.
     - destruct op; rewrite elem_sim; plain; apply only_norm_norm.
     - rewrite (items_sim items [] s Hc). destruct (r_items rrec items s) as [[vs s1]| |]; simpl; auto.
@@ -555,7 +570,7 @@ Proof. intros Hc H. rewrite (compile_correct _ _ _ _ Hc) in H. eapply eval_frame
    under which the machine's account of Python scoping is faithful, and keeps `x` under a modifier
    inside the operand) ------------------------------------------------------------------------------------ *)
 Lemma core_program_core p : core_program p = true -> core_ok_list false LNone false p = true.
-Proof. unfold core_program. intro H. apply andb_prop in H as [H _]. apply andb_prop in H as [H _]. exact H. Qed.
+Proof. unfold core_program. intro H. apply andb_prop in H as [H _]. exact H. Qed.
 
 Theorem compile_correct_program cf fuel p s :
   core_program p = true -> exec cf fuel false p s = eval cf fuel p s.
